@@ -17,7 +17,7 @@ Correspondence on every run:
  (c) float32/float64/complex64/complex128 arithmetic, comparisons and int<->float conversions: bit patterns
      of compiled programs vs native Go (no model).
 """
-import json, os, re, struct
+import json, os, re, struct, time
 import common as C
 import c06_gen, c06_exprs as X
 
@@ -116,9 +116,9 @@ def coq_eval_lists(ctx, name, header, body_defs, call):
         f.write(header)
         f.write(body_defs)
         f.write("Definition M := Eval vm_compute in %s.\nPrint M.\n" % call)
-    rc, out = C.coq_run(p, timeout=3600)
-    if rc == 124:                       # overloaded machine: one retry
-        rc, out = C.coq_run(p, timeout=7200)
+    rc, out = C.coq_run(p, timeout=900 if ctx.quick else 3600)
+    if rc == 124 or "[timeout after" in out[-200:]:
+        return None, "TIMEOUT"
     m = re.search(r"M\s*=\s*(\[[^\]]*\])", out.replace("\n", " "))
     if rc != 0 or not m:
         return None, out[-1200:]
@@ -194,6 +194,9 @@ def helpers(ctx):
         jobs.append(dict(id="ctorreal/%d/sub" % sg, h="ctorreal", sg=sg, xs=fx[:1], ys=reals, raw=True))
     inp = json.dumps(dict(repo=C.REPO, jobs=jobs)).encode()
     rc, out, err = C.sh2(["node", os.path.join(C.JS, "c06_helpers.js")], inp=inp, timeout=1800)
+    if rc == 124:
+        ctx.notes.append("prelude helper harness timed out: helper correspondence skipped")
+        return
     if rc != 0:
         ctx.violation("helpers-harness-failed", "the prelude helper harness failed (prelude does not load?)", dict(stderr=err[-1500:]), concrete=False)
         return
@@ -248,7 +251,10 @@ def helpers(ctx):
     nrows = 0
     for key, (bad, log) in C.parallel_map(run, range(len(work) + 1)):
         if bad is None:
-            ctx.violation("model-eval-failed", "Coq evaluation of the helper model failed", dict(job=str(key), log=log), concrete=False)
+            if log == "TIMEOUT":
+                ctx.notes.append("helper model rows skipped: Coq evaluation timed out (%s)" % (key,))
+            else:
+                ctx.violation("model-eval-failed", "Coq evaluation of the helper model failed", dict(job=str(key), log=log), concrete=False)
             continue
         if key == "ctorreal":
             nrows += len(real_rows)
@@ -268,25 +274,34 @@ def helpers(ctx):
 
 def build_and_run(ctx, name, src_js, src_native):
     """compile with the real compiler and run in node; build natively and run; outputs go through files
-    (the Go runtime's println drops data on a full non-blocking pipe)"""
+    (the Go runtime's println drops data on a full non-blocking pipe).  Error text starting with TIMEOUT marks an
+    infrastructure failure (never a violation)."""
     d = os.path.join(ctx.work, name)
     C.write_go_program(d, {"main.go": src_js}, module="verifc06")
     rc, log = C.gopherjs_build(d, timeout=900)
+    if rc == 124:
+        return None, None, "TIMEOUT: gopherjs build"
     if rc != 0:
         return None, None, "gopherjs build failed: " + log[-1500:]
-    rc, log = C.sh("node --stack-size=4000 out.js > impl.out 2>&1", cwd=d, timeout=3600)
+    rc, log = C.sh("node --stack-size=4000 out.js > impl.out 2>&1", cwd=d, timeout=1800)
+    if rc == 124:
+        return None, None, "TIMEOUT: node"
     impl = open(os.path.join(d, "impl.out"), errors="replace").read()
     if rc != 0:
         return None, None, "node failed rc=%d: %s" % (rc, impl[-1500:])
     dn = os.path.join(ctx.work, name + "_native")
     C.write_go_program(dn, {"main.go": src_native}, module="verifc06n")
     rc, log = C.sh(["go", "build", "-o", "prog", "."], cwd=dn, env=C.goenv(), timeout=1800)
+    if rc == 124:
+        return None, None, "TIMEOUT: native go build"
     if rc != 0:
-        return None, None, "native go build failed: " + log[-1500:]
-    rc, log = C.sh("./prog > native.out 2>&1", cwd=dn, timeout=3600)
+        return None, None, "HARNESS: native go build failed: " + log[-1500:]
+    rc, log = C.sh("./prog > native.out 2>&1", cwd=dn, timeout=1800)
+    if rc == 124:
+        return None, None, "TIMEOUT: native program"
     nat = open(os.path.join(dn, "native.out"), errors="replace").read()
     if rc != 0:
-        return None, None, "native program failed rc=%d: %s" % (rc, nat[-1500:])
+        return None, None, "HARNESS: native program failed rc=%d: %s" % (rc, nat[-1500:])
     return impl, nat, ""
 
 
@@ -325,16 +340,30 @@ def kind_program(ctx, k):
             gridB.append(must)
     exA = X.basic_exprs(k)
     exB = X.shape_exprs(k, r, quick)
-    sections = [(exA, gridA), (exB, gridB)]
+    exC = X.shape_exprs(k, r, quick)
+    half = lambda es, odd: [e for i, e in enumerate(es) if i % 2 == odd]
+    gridS = sorted(set([0, 1, X.kmin(k), X.kmax(k), -1 if k in X.SIGNED else 2, X.wrap(k, int("55" * (X.BITS[k] // 8), 16))] + r.sample(bnd, 4) + rnd[:2]))
+    nest = [X.nested(k, k, r, r.choice([2, 3])) for _ in range(6 if quick else 40)]
+    # (expressions, grid, type style: t = aliases / d = defined types, operand shape)
+    sections = [(exA, gridA, "t", "plain"),
+                (half(exB, 0), gridB, "t", "plain"),
+                (half(exC, 1), gridB, "d", "plain"),
+                (exA + nest, gridS, "d", "index"),
+                (exA + nest, gridS, "t", "call"),
+                (exA, gridS, "t", "map"),
+                (exA, gridS, "d", "field")]
     impl, nat, err = build_and_run(ctx, "prog_" + k, X.program(k, sections, False), X.program(k, sections, True))
     if impl is None:
-        ctx.violation("program-build-or-run-failed", "kind %s: %s" % (k, err[:300]), dict(kind="program", base=k, log=err), concrete=False)
+        if err.startswith("TIMEOUT"):
+            ctx.notes.append("kind %s skipped: %s" % (k, err))
+        else:
+            ctx.violation("program-build-or-run-failed", "kind %s: %s" % (k, err[:300]), dict(kind="program", base=k, log=err), concrete=False)
         return None
     ri, rn = parse_rows(impl), parse_rows(nat)
     stats = dict(rows=0, evals=0, panics=0, spec_disagreements_with_native=0)
     viol = []
-    coq_rows = {0: [], 1: []}
-    for si, (exprs, grid) in enumerate(sections):
+    coq_rows = {si: [] for si in range(len(sections))}
+    for si, (exprs, grid, prefix, leaf) in enumerate(sections):
         for ei, e in enumerate(exprs):
             rk = X.kind_of(e, k)
             for xi, x in enumerate(grid):
@@ -355,8 +384,13 @@ def kind_program(ctx, k):
                             except X.GoPanic:
                                 want = "P"
                             sig = trig[0] if trig else "int-%s-%s-wrong" % (k.lower(), top_op(e))
-                            viol.append((sig, "%s: x=%d y=%d: compiled program gives %s, native Go %s (spec in Python: %s) for `%s`" % (k, x, y, ta, tb, want, X.go(e)),
-                                         dict(kind="expr", base=k, expr=list_tree(e), go=X.go(e), x=x, y=y, impl=ta, native=tb, spec=str(want)), True))
+                            if not trig and leaf != "plain":
+                                sig = "int-%s-%s-operand-%s-wrong" % (k.lower(), top_op(e), leaf)
+                            if not trig and leaf == "plain" and prefix == "d":
+                                sig += "-defined-type"
+                            gosrc = X.go(e, X.Style(prefix, leaf))
+                            viol.append((sig, "%s: x=%d y=%d: compiled program gives %s, native Go %s (spec in Python: %s) for `%s`" % (k, x, y, ta, tb, want, gosrc),
+                                         dict(kind="expr", base=k, expr=list_tree(e), go=gosrc, prefix=prefix, leaf=leaf, x=x, y=y, impl=ta, native=tb, spec=str(want)), True))
                             break
                 # native Go vs the from-scratch Python spec (guards the harness itself): sampled
                 if (xi + ei) % 7 == 0:
@@ -407,18 +441,18 @@ def programs(ctx):
             if seen[sig] <= 2:
                 ctx.violation(sig, what, rep, concrete=conc)
         ctx.evaluations += pr["stats"]["evals"]
-        for si, (exprs, grid) in enumerate(pr["sections"]):
+        for si, (exprs, grid, prefix, leaf) in enumerate(pr["sections"]):
             rows = pr["coq_rows"][si]
             # Coq evaluates a sample of rows (x values) per expression: the boundary rows plus random ones
-            budget = (10 if si == 0 else 4) if quick else (64 if si == 0 else 24)
+            budget = (8 if si == 0 else 3) if quick else (64 if si == 0 else 24)
             byexpr = {}
             for row in rows:
                 byexpr.setdefault(row[0], []).append(row)
             rows = []
             for ei, rs in byexpr.items():
                 keep = [x for x in rs if x[1] in (X.kmin(k), X.kmax(k), 0, -1)]
-                if si == 1:
-                    keep = keep[:3] if quick else keep
+                if si >= 1:
+                    keep = keep[:2] if quick else keep
                 rows += keep + r.sample(rs, min(budget, len(rs)))
             per = max(1, ((120000 if quick else 200000) // (3 if X.BITS[k] == 64 else 1)) // max(1, len(grid)))
             for s in range(0, len(rows), per):
@@ -432,6 +466,14 @@ def programs(ctx):
         ctx.sample(dict(kind="expr", base=res[0]["k"], go=res[0]["sample"][0], grid_head=res[0]["sample"][1]))
 
     def run(i):
+        t0 = time.time()
+        try:
+            return run1(i)
+        finally:
+            if time.time() - t0 > 60:
+                ctx.log("slow model shard %d: %.0fs (kind %s, %d rows x %d)" % (i, time.time() - t0, work[i][0], len(work[i][4]), len(work[i][3])))
+
+    def run1(i):
         k, si, exprs, grid, rows = work[i]
         defs = "Definition exprs : list gexpr := [%s].\nDefinition grid : list Z := [%s].\nDefinition rows : list (nat * Z * Z) := [%s].\n" % (
             ";\n ".join(X.coq(e) for e in exprs), "; ".join(coq_z(v) for v in grid),
@@ -439,10 +481,14 @@ def programs(ctx):
         return i, coq_eval_lists(ctx, "p%d" % i, "", defs, "bad_rows %s exprs grid rows" % k)
 
     nrows = nevals = 0
+    ctx.log("model evaluation: %d shards, %d rows, %d evaluations" % (len(work), sum(len(w[4]) for w in work), sum(len(w[4]) * len(w[3]) for w in work)))
     for i, (bad, log) in C.parallel_map(run, range(len(work))):
         k, si, exprs, grid, rows = work[i]
         if bad is None:
-            ctx.violation("model-eval-failed", "Coq evaluation of the model failed (kind %s)" % k, dict(log=log), concrete=False)
+            if log == "TIMEOUT":
+                ctx.notes.append("model rows skipped: Coq evaluation timed out (kind %s, %d rows)" % (k, len(rows)))
+            else:
+                ctx.violation("model-eval-failed", "Coq evaluation of the model failed (kind %s)" % k, dict(log=log), concrete=False)
             continue
         nrows += len(rows)
         nevals += len(rows) * len(grid)
@@ -455,7 +501,7 @@ def programs(ctx):
     ctx.cov["model_evaluations_vs_program"] = nevals
     # distinct non-trivial cases: count per (kind, expression, x-row) digest
     for pr in res:
-        for si in (0, 1):
+        for si in pr["coq_rows"]:
             for ei, x, toks, key in pr["coq_rows"][si]:
                 ctx.distinct.add("%s/%d/%d/%d" % (pr["k"], si, ei, x))
 
@@ -507,6 +553,14 @@ var ints = []int64{%(ints)s}
 //go:noinline
 func c128(a, b float64) complex128 { return complex(a, b) }
 
+func pick(c *int) int {
+	*c++
+	if *c == 1 {
+		return 0
+	}
+	return 1
+}
+
 func main() {
 	for i, x := range g64 {
 		s := "A " + hex(uint32(i)) + ":"
@@ -545,6 +599,25 @@ func main() {
 			r := p * q
 			t := p - q
 			s += " " + h64(real(r)) + h64(imag(r)) + h64(real(t)) + h64(imag(t)) + b(p == q) + b(p != q)
+		}
+		println(s)
+	}
+	for i, x := range g64 {
+		s := "G " + hex(uint32(i)) + ":"
+		for j, y := range g64 {
+			if (i+j)%%4 != 0 {
+				continue
+			}
+			// operands that are element expressions with a side-effecting index: evaluated exactly once
+			pa := [2]complex128{c128(x, y), c128(y, x)}
+			qa := [2]complex128{c128(y, 3), c128(3, y)}
+			fa := [2]complex64{complex64(c128(x, y)), complex64(c128(y, x))}
+			var c [9]int
+			r := pa[pick(&c[0])] * qa[pick(&c[1])]
+			t := pa[pick(&c[2])] - qa[pick(&c[3])]
+			u := -pa[pick(&c[4])]
+			w := fa[pick(&c[7])] + fa[pick(&c[8])]
+			s += " " + h64(real(r)) + h64(imag(r)) + h64(real(t)) + h64(imag(t)) + h64(real(u)) + h64(imag(u)) + b(pa[pick(&c[5])] == qa[pick(&c[6])]) + h32(real(w)) + h32(imag(w))
 		}
 		println(s)
 	}
@@ -640,12 +713,15 @@ def floats(ctx):
                                  conv=", ".join(f64lit(v) for v in conv), ints=", ".join(str(v) for v in ints))
     impl, nat, err = build_and_run(ctx, "prog_float", src(False), src(True))
     if impl is None:
-        ctx.violation("float-program-build-or-run-failed", err[:300], dict(kind="float-program", log=err), concrete=False)
+        if err.startswith("TIMEOUT"):
+            ctx.notes.append("float program skipped: " + err)
+        else:
+            ctx.violation("float-program-build-or-run-failed", err[:300], dict(kind="float-program", log=err), concrete=False)
         return
     def rows(t):
         out = {}
         for line in t.split("\n"):
-            m = re.match(r"([A-F]) ([0-9a-f]{8}):(.*)$", line.strip())
+            m = re.match(r"([A-G]) ([0-9a-f]{8}):(.*)$", line.strip())
             if m:
                 out[(m.group(1), int(m.group(2), 16))] = m.group(3).split()
         return out
@@ -653,7 +729,7 @@ def floats(ctx):
     ncmp = 0
     seen = {}
     NAMES = dict(A="float64 + - * / comparisons, negation, float64->float32", B="float32 + - * / comparisons, fused-looking shapes, float32->float64",
-                 C="complex64 * + - ==", D="complex128 * - == !=", E="float -> integer conversions (in range)", F="integer -> float conversions")
+                 C="complex64 * + - ==", D="complex128 * - == !=", E="float -> integer conversions (in range)", F="integer -> float conversions", G="complex operands that are element expressions with a side-effecting index")
     for key in sorted(rn):
         a, b = ri.get(key), rn[key]
         if a is None:
@@ -663,8 +739,8 @@ def floats(ctx):
         if a != b:
             sec, i = key
             j = next((j for j, (p, q) in enumerate(zip(a, b)) if p != q), min(len(a), len(b)))
-            x = dict(A=g64, B=g32, C=g32, D=g64, E=conv, F=ints)[sec][i]
-            sig = "float-%s-wrong" % dict(A="float64-arith", B="float32-arith", C="complex64", D="complex128", E="to-int-conversion", F="from-int-conversion")[sec]
+            x = dict(A=g64, B=g32, C=g32, D=g64, E=conv, F=ints, G=g64)[sec][i]
+            sig = "float-%s-wrong" % dict(A="float64-arith", B="float32-arith", C="complex64", D="complex128", E="to-int-conversion", F="from-int-conversion", G="complex-indexed-operand")[sec]
             if sec == "E" and j < len(b) and b[j][0] in "fg" and x > 0 and x != int(x):
                 sig = "float-to-int64-ceil-carry"
             if sec == "F" and j == 0 and j < len(a) and len(a[j]) == 48 and a[j][:16] == b[j][:16] and a[j][24:40] == b[j][24:40]:
@@ -708,7 +784,7 @@ def replay(ctx, data):
         if e is None:
             print(json.dumps(rp, indent=1))
             return 0
-        sections = [([e], [rp["x"], rp["y"]])]
+        sections = [([e], [rp["x"], rp["y"]], rp.get("prefix", "t"), rp.get("leaf", "plain"))]
         impl, nat, err = build_and_run(ctx, "replay", X.program(k, sections, False), X.program(k, sections, True))
         print("expression:", X.go(e), " x=%d y=%d" % (rp["x"], rp["y"]))
         print("compiled program now (rows over [x, y]):\n" + (impl or err))
